@@ -283,6 +283,100 @@ impl Ctx {
         }
     }
 
+    /// Runs one case in a forked child process with a hard time limit. The calling process must be
+    /// single-threaded. A case that does not finish within `limit` is killed and reported as
+    /// `Failure{signature: hang_signature}` — use only where "the call returns" is part of the
+    /// property (C04, C07) and with a limit that is orders of magnitude above the normal duration.
+    /// A child that dies from a signal is reported as `<hang_signature>.crash`.
+    pub fn forked(limit: Duration, hang_signature: &str, f: impl FnOnce(&mut Obs) -> Result<(), Failure>) -> (Obs, Result<(), Failure>) {
+        let mut fds = [0i32; 2];
+        if unsafe { libc::pipe(fds.as_mut_ptr()) } != 0 {
+            let mut obs = Obs::default();
+            let r = Self::guarded(|| f(&mut obs));
+            return (obs, r);
+        }
+        let pid = unsafe { libc::fork() };
+        if pid == 0 {
+            unsafe { libc::close(fds[0]) };
+            let mut obs = Obs::default();
+            let r = Self::guarded(|| f(&mut obs));
+            let j = json!({
+                "nontrivial": obs.nontrivial, "discarded": obs.discarded, "classes": obs.classes,
+                "failure": r.err().map(|f| json!({"signature": f.signature, "message": f.message})),
+            });
+            let b = serde_json::to_vec(&j).unwrap_or_default();
+            let mut off = 0;
+            while off < b.len() {
+                let n = unsafe { libc::write(fds[1], b[off..].as_ptr() as *const libc::c_void, b.len() - off) };
+                if n <= 0 {
+                    break;
+                }
+                off += n as usize;
+            }
+            unsafe { libc::_exit(0) };
+        }
+        unsafe { libc::close(fds[1]) };
+        let t0 = Instant::now();
+        let mut buf: Vec<u8> = vec![];
+        let mut timed_out = false;
+        unsafe {
+            let flags = libc::fcntl(fds[0], libc::F_GETFL);
+            libc::fcntl(fds[0], libc::F_SETFL, flags | libc::O_NONBLOCK);
+        }
+        loop {
+            let mut chunk = [0u8; 4096];
+            let n = unsafe { libc::read(fds[0], chunk.as_mut_ptr() as *mut libc::c_void, chunk.len()) };
+            if n > 0 {
+                buf.extend_from_slice(&chunk[..n as usize]);
+                continue;
+            }
+            if n == 0 {
+                break; // EOF: child closed the pipe (exited)
+            }
+            if t0.elapsed() > limit {
+                timed_out = true;
+                break;
+            }
+            std::thread::sleep(Duration::from_millis(2));
+        }
+        unsafe { libc::close(fds[0]) };
+        if timed_out {
+            unsafe {
+                // the child may be a ptrace tracer with children of its own: kill its whole group is
+                // not possible (same group as us), so kill the child; PTRACE_O_EXITKILL takes the rest
+                libc::kill(pid, libc::SIGKILL);
+            }
+        }
+        let mut status = 0;
+        unsafe { libc::waitpid(pid, &mut status, 0) };
+        let mut obs = Obs::default();
+        if timed_out {
+            return (obs, Err(Failure::new(hang_signature, format!("the case did not finish within {} s (normal duration is far below a second)", limit.as_secs()))));
+        }
+        match serde_json::from_slice::<Value>(&buf) {
+            Ok(j) => {
+                obs.nontrivial = j["nontrivial"].as_bool().unwrap_or(false);
+                obs.discarded = j["discarded"].as_bool().unwrap_or(false);
+                if let Some(a) = j["classes"].as_array() {
+                    for c in a {
+                        if let Some(c) = c.as_str() {
+                            obs.classes.push(Box::leak(c.to_string().into_boxed_str()));
+                        }
+                    }
+                }
+                let r = match j.get("failure") {
+                    Some(Value::Object(o)) => Err(Failure::new(o["signature"].as_str().unwrap_or("?"), o["message"].as_str().unwrap_or("?"))),
+                    _ => Ok(()),
+                };
+                (obs, r)
+            }
+            Err(_) => {
+                let why = if libc::WIFSIGNALED(status) { format!("signal {}", libc::WTERMSIG(status)) } else { format!("status {status:#x}") };
+                (obs, Err(Failure::new(format!("{hang_signature}.crash"), format!("the process running the case died ({why}) without reporting a result"))))
+            }
+        }
+    }
+
     /// Random search with proptest. `total_cases` is split over the workers. The closure is
     /// re-run during shrinking; counting stops at the first failure. Failures whose signature
     /// is an open known finding are counted and tolerated so the search continues behind them.
